@@ -84,9 +84,13 @@ class Bus:
                 self.tg(dev["ia"], d.src_addr, tpci.TDisconnect())
             else:
                 dev["peer"], dev["seq"] = d.src_addr, 0
+                dev["lost"] = False
         elif isinstance(d.tpci, tpci.TDisconnect):
             dev["peer"] = None
         elif isinstance(d.tpci, tpci.TDataConnected) and dev.get("peer") == d.src_addr:
+            if dev["beh"] == "lossy" and not dev.get("lost"):        # the first data frame of a connection does not reach the device
+                dev["lost"] = True
+                return
             self.tg(dev["ia"], d.src_addr, tpci.TAck(d.tpci.sequence_number))
             if isinstance(p, apci.DeviceDescriptorRead):
                 self.tg(dev["ia"], d.src_addr, tpci.TDataConnected(dev["seq"]), apci.DeviceDescriptorResponse(descriptor=0, value=0x07B0))
@@ -119,7 +123,8 @@ def make(loop, pop, latency=0.02):
 
 
 def popjson(devs):
-    return [{"addr": d["ia"].raw - 0x1100, "prog": 1 if d["prog"] else 0, "beh": d["beh"]} for d in devs]
+    # ("lossy": a device that answers, but the first data frame of every connection is lost on the way to it - to the specification it answers)
+    return [{"addr": d["ia"].raw - 0x1100, "prog": 1 if d["prog"] else 0, "beh": "answers" if d["beh"] == "lossy" else d["beh"]} for d in devs]
 
 
 def run_write(pop, latency=0.02, seed=0):
@@ -230,6 +235,12 @@ def run(ck):
     # segment carrying both frames, or a routing interface confirming locally, produces) - for the populations of <= 2 devices
     lat = [0.02] * len(pops) + [0.0] * sum(1 for p in pops if len(p) <= 2)
     pops = pops + [p for p in pops if len(p) <= 2]
+    # a device at the target address that only hears the repetition of the first data frame (acknowledged after the 3 s timeout), both schedules
+    for extra in ([(1, 0, "lossy")], [(1, 1, "lossy")], [(1, 0, "lossy"), (2, 1, "answers")], [(1, 0, "lossy"), (3, 1, "answers")], [(2, 1, "lossy")],
+                  [(1, 0, "lossy"), (2, 1, "lossy")], [(1, 0, "lossy"), (2, 1, "refuses")], [(1, 0, "lossy"), (2, 1, "silent")]):
+        for la in (0.02, 0.0):
+            pops.append(list(extra))
+            lat.append(la)
     traces = [run_write(p, latency=la, seed=ck.seed) for p, la in zip(pops, lat)]
     res = tlc.batch(ck, "mgmt/AddrWrite_Trace", traces, min_per_shard=100)
     for idx, info in sorted(res.bad.items()):
